@@ -80,3 +80,13 @@ package writecache
 //@   property C14
 //@   callee (*writecache.cache).put, (*writecache.cache).delete, (*writecache.cache).flushSingle, (*writecache.cache).flushBatch
 //@   requires [only_in_writable_mode] cacheWritable()
+
+// ---- C43: the cache's recorded mode changes only when the switch succeeded.
+//@ callrule c43_cache_collaborators in (*cache).SetMode
+//@   property C43
+//@   callee (*writecache.cache).flush, (*writecache.cache).openStore, (mode.Mode).*
+//@   pureeffect
+//@ func (*cache).SetMode
+//@   property C43
+//@   ensures [recorded_mode_is_the_new_one_on_success] err == nil ==> c.mode == m
+//@   ensures [recorded_mode_unchanged_on_failure] err != nil ==> c.mode == old(c.mode)
